@@ -455,10 +455,17 @@ def _restore_rules(db: DB, rep: Report, hm) -> None:
     rep.rule("W6", "partition-suffix tests are applied to the suffix of split_rank_name", 2)
     for f in db.all_functions(["teaal.trans."]):
         for n in walk_no_nested(f.node):
+            base = None
             if isinstance(n, ast.Compare) and isinstance(n.left, ast.Subscript) and \
                     isinstance(n.left.slice, ast.UnaryOp) and isinstance(n.comparators[0], ast.Constant) and \
                     n.comparators[0].value in ("I", "0", "1"):
                 base = n.left.value
+            elif isinstance(n, ast.Call) and isinstance(n.func, ast.Attribute) and n.func.attr == "endswith" \
+                    and len(n.args) == 1 and isinstance(n.args[0], ast.Constant) and \
+                    n.args[0].value in ("I", "0", "1"):
+                # the same test spelled <x>.endswith("I")
+                base = n.func.value
+            if base is not None:
                 ok = False
                 if isinstance(base, ast.Name):
                     for st, v in paths.defs_of(f.node, base.id):
@@ -486,6 +493,8 @@ def mutants(db: DB):
     eq, hd, ie = "teaal/trans/equation.py", "teaal/trans/header.py", "teaal/ir/equation.py"
     pt = "teaal/trans/partitioner.py"
     return [
+        M("temporary ranks recognised by endswith on the rank name", "teaal/trans/partitioner.py",
+          "                    if suffix and suffix[-1] == \"I\":", "                    if info[0].endswith(\"I\"):", "W6"),
         M("unflatten levels from the partitioning spec", pt,
           "                    args.append(AParam(\"levels\", EInt(len(info) - 1)))",
           "                    args.append(AParam(\"levels\", EInt(len(part_ir.get_part_spec(info)))))", "W7"),
